@@ -43,6 +43,23 @@
 (* (ShardEachOnce, ShardHonest), and its result is the atomic ShardRes of  *)
 (* Part 1 (ShardSummary).  InPlace = TRUE is the variant that shuffles the *)
 (* shared list itself with unsynchronised swaps: TLC must reject it.       *)
+(*                                                                         *)
+(* Part 5 (Family = "big") is about the SIZE of a page.  The model has no  *)
+(* integer widths: a position in the page, the length of a per-store       *)
+(* stream, size+offset are naturals.  So the outcome of an all-up search   *)
+(* over single-replica shards whose result sets partition the MIDs 1..n is *)
+(* one closed-form rule, whatever n is (BigAlt: the i-th ID is the i-th    *)
+(* MID of the order, it is fetched from the store that holds it, the i-th  *)
+(* document is its document - or empty once its store's stream has broken).*)
+(* TLC decides on the small instances of the family that the rule IS the   *)
+(* set Allowed of the scenario (BigRuleIsRef, next to Honest,              *)
+(* AllUpIsComplete, FetchIsGreedy on the same states) and emits the table  *)
+(* of dimensions Big (page sizes at the integer-width boundaries x stores  *)
+(* x distribution of the ids over the stores x order x hint x offset x     *)
+(* break) as rule descriptors; the driver generates those pages            *)
+(* arithmetically and holds the real read path to the rule.  PosWidth > 0  *)
+(* is the variant whose position table wraps at PosWidth entries: TLC must *)
+(* reject it (FetchIsGreedy).                                              *)
 (***************************************************************************)
 EXTENDS Integers, Sequences, FiniteSets, TLC, Json, Randomization
 
@@ -57,7 +74,9 @@ CONSTANTS Family,     \* "search" | "merge" | "fetch" | "store" | "rand"
           HintKeyed,
           Shuffles,   \* subset of BOOLEAN: config.ShuffleReplicas of the search ingestor
           ShardReps, ShardProcs, ShardFlips,   \* Part 4: replicas of the shard, concurrent searches, up/down changes
-          InPlace     \* Part 4: FALSE = searchShard as pinned (private index permutation); TRUE = shuffles `hosts` itself
+          InPlace,    \* Part 4: FALSE = searchShard as pinned (private index permutation); TRUE = shuffles `hosts` itself
+          Big,        \* Part 5: the dimensions of the big-page family (a record, see BigQuick; 0 in the other families)
+          PosWidth    \* Part 5: 0 = positions of lessFuncPosBased are naturals (the design); w > 0 = the table stores position mod w
 
 VARIABLES sc, stage, alw,    \* alw = Allowed(sc), computed once on entering the final stage
           cs                 \* Part 4 only (Family = "shard"): shared replica list, host states, the searches in flight
@@ -287,8 +306,10 @@ Consume(Q, i, st, pos, curOk) ==
 \* the streams of all sources of Q, computed once
 StreamsOf(s, Q) == [h \in SrcsOf(Q) |-> StreamOf(s, Q, h)]
 \* FetchDocsStream + reading the iterator to the end; `perm`: the (map iteration) order of the opened sources
+\* lessFuncPosBased: `positions[...] = uint32(i)`; the design has no width (PosWidth = 0)
+PosOf(Q, x) == IF PosWidth = 0 THEN IndexIn(Q, x) ELSE (IndexIn(Q, x) - 1) % PosWidth
 AlgoDocs(s, Q, perm, hintKeyed) ==
-  LET pos == [x \in Range(Q) |-> IndexIn(Q, x)]
+  LET pos == [x \in Range(Q) |-> PosOf(Q, x)]
       ST == StreamsOf(s, Q)
       leaves == [i \in 1..Len(perm) |-> Leaf(ST[perm[i]])]
       curOk == ~(hintKeyed /\ s.hint # "")
@@ -457,7 +478,7 @@ RandScenario(z) ==
       fb |-> [h \in H |-> RandFB(h)], store |-> NoStore]
 
 \* ---- behaviour: stage 0 -> 1 (topology, search behaviours) -> 2 (data, request, hint, fetch behaviours) -> 3
-Step1 == /\ stage = 0 /\ Family \notin {"rand", "shard"}
+Step1 == /\ stage = 0 /\ Family \notin {"rand", "shard", "big"}
          /\ \E t \in Topos, hr \in HotReads, sh \in Shuffles :
               LET hot == HotOf(t)  cold == ColdOf(t) IN
               \E ha \in HotAsgs(t, sh) : \E ca \in ColdAsgs(t, ha, sh) :
@@ -530,8 +551,101 @@ ShardNext == /\ Family = "shard" /\ UNCHANGED <<sc, stage, alw>>
              /\ \/ \E x \in ShProcs : ShBegin(x) \/ ShPick(x) \/ ShRd1(x) \/ ShRd2(x) \/ ShWr1(x) \/ ShWr2(x) \/ ShAsk(x) \/ ShFail(x)
                 \/ \E h \in Range(ShReps) : ShFlip(h)
 
+(***************************************************************************)
+(* Part 5 - big pages (Family = "big").  A scenario d: `stores` single-    *)
+(* replica hot shards hold the ids <<m, 1>>, m \in 1..n, n = page +        *)
+(* 2*offset (with an offset there are `offset` ids in front of the page    *)
+(* and as many behind the limit).  The MIDs are dealt out in periods of    *)
+(* (skew + stores - 1) * unit consecutive MIDs: the first skew*unit of a   *)
+(* period to store 1, the next unit to store 2, ...  unit = 1 interleaves  *)
+(* the stores, a larger unit gives blocks, unit = 0 stands for one period  *)
+(* (contiguous parts); skew > 1 makes the stream of store 1 longer than    *)
+(* the others'.  brk = k > 0: the fetch stream of BigBrkStore breaks after *)
+(* k documents.  Everything else is up and well-behaved.                   *)
+(***************************************************************************)
+BigD(page, offset, stores, unit, skew, order, hint, brk) ==
+  [n |-> page + 2 * offset, page |-> page, offset |-> offset, stores |-> stores, unit |-> unit, skew |-> skew,
+   order |-> order, hint |-> hint, brk |-> brk]
+BigUnit(d) == IF d.unit = 0 THEN (d.n + d.skew + d.stores - 2) \div (d.skew + d.stores - 1) ELSE d.unit
+\* the MIDs of store s as a generator: {m \in first..last : (m - first) % step < run}
+BigGen(d, s) ==
+  LET u == BigUnit(d) IN
+  [host |-> HN("h", s, 1), first |-> IF s = 1 THEN 1 ELSE 1 + (d.skew + s - 2) * u, run |-> IF s = 1 THEN d.skew * u ELSE u,
+   step |-> (d.skew + d.stores - 1) * u, last |-> d.n]
+InGen(g, m) == m >= g.first /\ m <= g.last /\ (m - g.first) % g.step < g.run
+BigOwner(d, m) == CHOOSE s \in 1..d.stores : InGen(BigGen(d, s), m)
+\* the number of MIDs <= x of a generator in closed form (BigCountsExact ties it to the set on the small instances)
+GenUpTo(g, x) ==
+  LET y == Min2(x, g.last) IN
+  IF y < g.first THEN 0 ELSE LET t == y - g.first + 1 IN (t \div g.step) * g.run + Min2(t % g.step, g.run)
+\* every store answers, so the merged FULL result is 1..n in the requested order and the page is a range of MIDs
+BigLen(d) == Min2(d.page, d.n - d.offset)
+BigMid(d, i) == IF d.order = "asc" THEN d.offset + i ELSE d.n - d.offset - i + 1
+BigLo(d) == Min2(BigMid(d, 1), BigMid(d, BigLen(d)))
+BigHi(d) == BigLo(d) + BigLen(d) - 1
+\* the number of ids of the page that store s is asked to fetch
+BigReqLen(d, s) == GenUpTo(BigGen(d, s), BigHi(d)) - GenUpTo(BigGen(d, s), BigLo(d) - 1)
+BigBrkStore(d) == IF d.skew > 1 THEN 1 ELSE d.stores
+\* a row of the table: a stream can only break before its last document; Big.star = the three request dimensions
+\* (order, hint, offset) are varied one at a time around (desc, with hint, 0) instead of as a product
+BigNonDefault(d) == (IF d.order = "asc" THEN 1 ELSE 0) + (IF d.hint = "" THEN 1 ELSE 0) + (IF d.offset > 0 THEN 1 ELSE 0)
+BigValid(d, star) ==
+  /\ (d.stores = 1) => (d.unit = 1 /\ d.skew = 1)
+  /\ (d.brk > 0) => (d.brk < BigReqLen(d, BigBrkStore(d)))
+  /\ star => (BigNonDefault(d) <= 1)
+BigRows ==
+  {d \in {BigD(p, o, st, u, k, ord, hint, b) : p \in Big.pages, o \in Big.offsets, st \in Big.stores, u \in Big.units,
+                                              k \in Big.skews, ord \in Orders, hint \in Hints, b \in Big.breaks} : BigValid(d, Big.star)}
+\* the small instances of the same family: TLC decides the rule on them
+BigSmall ==
+  {d \in {BigD(p, o, st, u, k, ord, hint, b) : p \in Sizes, o \in Offsets, st \in Big.stores, u \in Big.sunits,
+                                              k \in Big.skews, ord \in Orders, hint \in Hints, b \in Big.sbreaks} : BigValid(d, FALSE)}
+
+\* ---- the rule: what Allowed(scenario) is, in closed form
+\* the index of the i-th id of the page in the request its store gets
+BigRank(d, i) == Cardinality({j \in 1..i : BigOwner(d, BigMid(d, j)) = BigOwner(d, BigMid(d, i))})
+BigDoc(d, i) ==
+  LET m == BigMid(d, i)  s == BigOwner(d, m) IN
+  IF d.brk > 0 /\ s = BigBrkStore(d) /\ BigRank(d, i) > d.brk THEN EmptyBody ELSE BodyOf(<<m, 1>>, HN("h", s, 1))
+BigAlt(d) ==
+  [kind |-> "complete", cls |-> "", tier |-> "hot",
+   ids |-> [i \in 1..BigLen(d) |-> <<BigMid(d, i), 1, HN("h", BigOwner(d, BigMid(d, i)), 1)>>],
+   docs |-> [i \in 1..BigLen(d) |-> {BigDoc(d, i)}], nerr |-> 0, api |-> ApiOf("complete", "", 0)]
+\* the rule as the driver gets it: the page is len MIDs from `first` in steps of `step`; an id is fetched from the
+\* store whose generator holds its MID; its document is that store's document of it - unless the store is brkhost
+\* and more than brk ids of the page before it (itself included) are that store's: then it is empty
+BigRule(d) ==
+  [n |-> d.n, len |-> BigLen(d), first |-> BigMid(d, 1), step |-> IF d.order = "asc" THEN 1 ELSE 0 - 1, rid |-> 1,
+   gens |-> [s \in 1..d.stores |-> BigGen(d, s)], brk |-> d.brk,
+   brkhost |-> IF d.brk > 0 THEN HN("h", BigBrkStore(d), 1) ELSE "", dims |-> d]
+
+\* ---- the tables of the big-page family (cfg: Big <- BigQuick / BigFull).  pages: 2^8 and 2^16 with their
+\* neighbours, a size between the boundary and the maximum, conf.MaxRequestedDocuments; breaks: 0 = none
+BigQuick == [pages |-> {255, 256, 257, 65535, 65536, 65537, 70000, 100000}, offsets |-> {0, 7}, stores |-> {2, 3},
+             units |-> {1, 1000}, skews |-> {1, 3}, breaks |-> {0, 65537}, star |-> TRUE,
+             sunits |-> {1, 2, 0}, sbreaks |-> {0, 1, 3}]
+BigFull == [pages |-> {1, 255, 256, 257, 4096, 65535, 65536, 65537, 70000, 99999, 100000}, offsets |-> {0, 7, 65536}, stores |-> {1, 2, 3},
+            units |-> {1, 1000, 0}, skews |-> {1, 3}, breaks |-> {0, 300, 65537}, star |-> FALSE,
+            sunits |-> {1, 2, 0}, sbreaks |-> {0, 1, 3}]
+
+\* ---- the scenario of Parts 1-3 a small instance stands for
+BigSc(d) ==
+  LET t == d.stores * 1000 + 100
+      hot == HotOf(t)  cold == ColdOf(t)  H == AllHosts(hot, cold)
+  IN [topo |-> t, hot |-> hot, cold |-> cold, hotread |-> FALSE, shuffle |-> FALSE,
+      sb |-> [h \in H |-> "ok"],
+      data |-> [h \in H |-> {<<m, 1>> : m \in {x \in 1..d.n : InGen(BigGen(d, SOf(hot, h)), x)}}],
+      req |-> [size |-> d.page, offset |-> d.offset, order |-> d.order], hint |-> d.hint,
+      fb |-> [h \in H |-> IF d.brk > 0 /\ h = HN("h", BigBrkStore(d), 1) THEN [k |-> "brk", n |-> d.brk, m |-> 0, s |-> {}] ELSE FBok],
+      store |-> NoStore, big |-> d]
+\* small instances go the way of every scenario (stage 2 -> 3: Allowed, the invariants, emission with the full
+\* tables); the rows of the table are states of their own (stage 4) that carry nothing but their dimensions
+StepBig == /\ Family = "big" /\ stage = 0 /\ alw' = {} /\ UNCHANGED cs
+           /\ \/ \E d \in BigSmall : sc' = BigSc(d) /\ stage' = 2
+              \/ \E d \in BigRows : sc' = [big |-> d] /\ stage' = 4
+
 Init == stage = 0 /\ sc = <<>> /\ alw = {} /\ cs \in (IF Family = "shard" THEN ShardInits ELSE {<<>>})
-Next == Step1 \/ Step2 \/ Step3 \/ StepRand \/ ShardNext
+Next == Step1 \/ Step2 \/ Step3 \/ StepRand \/ ShardNext \/ StepBig
 Spec == Init /\ [][Next]_vars
 
 (***************************************************************************)
@@ -668,4 +782,28 @@ HostAns(s) == [h \in DOMAIN s.sb |-> Ans(s, h)]
 Emit == Final => PrintT(<<"CASE", ToJson([hot |-> sc.hot, cold |-> sc.cold, hotread |-> sc.hotread, shuffle |-> sc.shuffle, req |-> sc.req,
                                           hint |-> sc.hint, sb |-> sc.sb, ans |-> HostAns(sc), store |-> sc.store, fbk |-> [h \in DOMAIN sc.fb |-> sc.fb[h].k],
                                           fetch |-> FetchTable(sc), allowed |-> alw])>>)
+\* ---------------------------------------------------------------- Part 5: what TLC decides (Family = "big")
+\* the closed-form rule is exactly what the property-level reference allows for the scenario: one outcome,
+\* complete, the page of MIDs, every document its id's document (empty after the break of its store's stream)
+BigRuleIsRef == (Final /\ Family = "big") => alw = {BigAlt(sc.big)}
+\* the arithmetic the table is filtered with is the arithmetic of the sets: the generators partition 1..n and
+\* BigReqLen is the number of ids a store is asked for
+BigCountsExact ==
+  /\ (Final /\ Family = "big") =>
+       LET d == sc.big IN
+       /\ \A m \in 1..d.n : Cardinality({s \in 1..d.stores : InGen(BigGen(d, s), m)}) = 1
+       /\ \A s \in 1..d.stores : BigReqLen(d, s) = Cardinality({i \in 1..BigLen(d) : BigOwner(d, BigMid(d, i)) = s})
+       /\ \A s \in 1..d.stores : GenUpTo(BigGen(d, s), d.n) = Cardinality(sc.data[HN("h", s, 1)])
+  /\ (stage = 4) =>
+       LET d == sc.big
+           RECURSIVE sum(_)
+           sum(s) == IF s = 0 THEN 0 ELSE GenUpTo(BigGen(d, s), d.n) + sum(s - 1)
+       IN sum(d.stores) = d.n /\ BigLen(d) = d.page
+EmitBig ==
+  /\ Final => PrintT(<<"CASE", ToJson([hot |-> sc.hot, cold |-> sc.cold, hotread |-> sc.hotread, shuffle |-> sc.shuffle, req |-> sc.req,
+                                       hint |-> sc.hint, sb |-> sc.sb, ans |-> HostAns(sc), store |-> sc.store, fbk |-> [h \in DOMAIN sc.fb |-> sc.fb[h].k],
+                                       fetch |-> FetchTable(sc), allowed |-> alw, big |-> BigRule(sc.big)])>>)
+  /\ (stage = 4) => PrintT(<<"CASE", ToJson([hot |-> HotOf(sc.big.stores * 1000 + 100), cold |-> <<>>, hotread |-> FALSE, shuffle |-> FALSE,
+                                             req |-> [size |-> sc.big.page, offset |-> sc.big.offset, order |-> sc.big.order],
+                                             hint |-> sc.big.hint, store |-> NoStore, big |-> BigRule(sc.big)])>>)
 =============================================================================
